@@ -168,9 +168,17 @@ func (f *Frame) instr(ins ssa.Instruction, st *State) bool {
 		res.Go = x.Type()
 		f.vals[x] = res
 		if sc := x.Call.StaticCallee(); sc != nil {
-			f.runGhostHooks("call:"+sc.String(), map[string]Val{"result": res}, st)
+			extra := map[string]Val{"result": res}
+			for i, a := range x.Call.Args {
+				extra[fmt.Sprintf("arg%d", i)] = f.val(a, st)
+			}
+			f.runGhostHooks("call:"+sc.String(), extra, st)
 		} else if x.Call.IsInvoke() {
-			f.runGhostHooks("call:("+types.TypeString(x.Call.Value.Type(), nil)+")."+x.Call.Method.Name(), map[string]Val{"result": res}, st)
+			extra := map[string]Val{"result": res}
+			for i, a := range x.Call.Args {
+				extra[fmt.Sprintf("arg%d", i)] = f.val(a, st)
+			}
+			f.runGhostHooks("call:("+types.TypeString(x.Call.Value.Type(), nil)+")."+x.Call.Method.Name(), extra, st)
 		} else if pv, ok := x.Call.Value.(*ssa.Parameter); ok {
 			extra := map[string]Val{"result": res}
 			for i, a := range x.Call.Args {
@@ -828,6 +836,8 @@ func (f *Frame) selectInstr(x *ssa.Select, st *State) {
 		}
 	}
 	f.vals[x] = Val{Tup: tup}
+	// ghost-after F select: `selected` is the index of the case taken (-1: the default case of a non-blocking select)
+	f.runGhostHooks("select", map[string]Val{"selected": {T: idx, Go: types.Typ[types.Int]}}, st)
 }
 
 // guardOf: the lock that guards location lv (a `guarded T.f by mtx` declaration), if any.
@@ -907,6 +917,27 @@ func (f *Frame) runGhostHooks(event string, extra map[string]Val, st *State) {
 	}
 	pre := st.clone()
 	for _, h := range hooks {
+		// a hook that names variables which do not exist at this site (another call of the same callee elsewhere in the
+		// function) does not apply here
+		applicable := true
+		for _, set := range h.Sets {
+			func() {
+				defer func() {
+					if r := recover(); r != nil {
+						if _, u := r.(unsupported); !u {
+							panic(r)
+						}
+						applicable = false
+					}
+				}()
+				scratch := pre.clone()
+				f.eval(set.E, &evalCtx{env: env, cur: &scratch, old: &f.top().entry})
+			}()
+		}
+		if !applicable {
+			un.note("ghost hook " + h.Name + " does not apply at one of its sites (names not in scope there)")
+			continue
+		}
 		for _, set := range h.Sets {
 			lhs := strings.TrimPrefix(set.Kind, "set:")
 			rhs := f.eval(set.E, &evalCtx{env: env, cur: &pre, old: &f.top().entry})
